@@ -202,6 +202,7 @@ def run(chk):
         cases.append(one_track_block(kind, rng, blocks.rmask(rng, n), ntracks=rng.choice((1, 2, 3))))
     chk.count("long tracks", nlong)
     check_cases(chk, cases)
+    check_cases(chk, [c for c in codec.large_count_cases(chk) if c[0] in RL_KINDS])
     codec.check_inplace(chk, "C05", 200 if chk.tier == "quick" else 3000)
     chk.exhaustive = True
     chk.extra["exhaustive_scope"] = "all 2^n masks, n <= %d, per kind" % (8 if chk.tier == "quick" else 11)
